@@ -234,6 +234,14 @@ m('q16_neg_high_half_only','C12','src/quire16.rs',
   "        self.0 = self.0.wrapping_neg();",
   "        self.0 = ((self.0 >> 64).wrapping_neg() << 64) | (self.0 & 0xFFFF_FFFF_FFFF_FFFF);",
   note='Q16E1::neg negates the high 64 bits only')
+m('q16_neg_of_nar_gives_zero','C12','src/quire16.rs',
+  "        self.0 = self.0.wrapping_neg();",
+  "        self.0 = if self.is_nar() { 0 } else { self.0.wrapping_neg() };",
+  note='Q16E1::neg turns a NaR quire into zero (NaR must stay NaR until cleared); identical on every sum')
+m('q8_neg_of_nar_saturates','C12','src/quire8.rs',
+  "        self.0 = self.0.wrapping_neg();",
+  "        self.0 = self.0.checked_neg().unwrap_or(i32::MAX);",
+  note='Q8E0::neg turns the NaR image into the largest positive image; identical on every sum')
 m('q32_split3_stale','C12','src/quire32.rs',
   """        let p2 = self.to_posit();
         self -= p2;
